@@ -212,9 +212,21 @@ class Prop(BaseProp):
                     res.count("reference_disagreements")
                     res.see("reference_disagreement_samples", (err[-200:] if rc else "") + text[:200])
                     continue
+                if rng.random() < 0.3:
+                    # history: a file with a syntax error is processed first, by the same process (must fail, and must not
+                    # change what happens to the valid file afterwards)
+                    bad = os.path.join(sb, "bad_before.cmake")
+                    with open(bad, "w") as f:
+                        f.write(rng.choice(["function(broken\n", "set(x \"unterminated\n", "bareword\nset(x 1)\n", "set(a b))\n",
+                                            "message(\\q)\n"]))
+                    ob, _ = self.cminx_commands(bad, res, wit)
+                    res.count("invalid_files_processed_before_a_valid_one")
+                    wit = dict(wit, history="an invalid file was processed before this one in the same process")
                 o, cm = self.cminx_commands(p, res, wit)
                 if cm is None:
                     cls = o.crash_class() or f"exit:{o.exit_code}"
+                    if "history" in wit:
+                        cls += ":after-invalid-file"
                     if "generic_command" in [n for n in names]:
                         msg = f"{type(o.exc).__name__}: {o.exc}"
                         if ("include_undocumented_generic_command" in msg) or ("process_generic_command" in msg):
